@@ -71,6 +71,7 @@ class Collector:
         self.violations = {}       # key -> {'count': n, 'witnesses': [..]}
         self.unkeyed = []          # violations with no mechanism key
         self.unkeyed_count = 0
+        self.unkeyed_hist = collections.Counter()
         self.inconclusive = []
         self.extra = {}
         self.anchors = collections.Counter()
@@ -106,6 +107,7 @@ class Collector:
                'expected': jsonable(expected)}
         if key is None:
             self.unkeyed_count += 1
+            self.unkeyed_hist[str(desc)[:90]] += 1
             if len(self.unkeyed) < 10:
                 self.unkeyed.append(rec)
             return
@@ -119,6 +121,6 @@ class Collector:
             'prop_id': self.prop_id, 'evaluations': self.evaluations, 'classes': dict(self.classes),
             'nontrivial': sorted(self.nontrivial), 'samples': self.samples, 'probes': dict(self.probes),
             'required': self.required, 'violations': self.violations, 'unkeyed': self.unkeyed,
-            'unkeyed_count': self.unkeyed_count, 'inconclusive': self.inconclusive, 'extra': jsonable(self.extra),
+            'unkeyed_count': self.unkeyed_count, 'unkeyed_hist': dict(self.unkeyed_hist.most_common(40)), 'inconclusive': self.inconclusive, 'extra': jsonable(self.extra),
             'anchors': dict(self.anchors),
         }
